@@ -233,7 +233,16 @@ def run_case(case, ctx):
             net2 = build()
             patch = patch_factory("enzo", "cpu")
             ed = work / "enzo"
-            patch.render(net2, templates=["naunet_enzo.h.j2"], path=ed)
+            before = [(s.name, s.alias) for s in net2.species]
+            patch.render(net2, templates=["naunet_enzo.h.j2", "Grid_NaunetWrapper.C.j2"], path=ed)
+            after = [(s.name, s.alias) for s in net2.species]
+            if after != before:
+                ch = [(b, a) for b, a in zip(before, after) if a != b]
+                viol.append(violation("patch_changed_network_aliases", f"rendering the Enzo patch changed the network's own species aliases: {ch[:4]}"))
+            used = set(re.findall(r"\bIDX_(\w+)\b", (ed / "Grid_NaunetWrapper.C").read_text())) - {"TGAS"}
+            macro_names = {a for _, a in before} | {"ELEM_" + e for e in py_elements}
+            if not used <= macro_names:
+                viol.append(violation("patch_uses_undefined_index", f"Grid_NaunetWrapper.C uses IDX_{sorted(used - macro_names)[:4]} which naunet_macros.h does not define"))
             txt = (ed / "naunet_enzo.h").read_text()
             defs = re.findall(r"^#define A_(\S+) (\S+)\s*$", txt, flags=re.M)
             table = re.search(r"A_Table\[NSPECIES\] = \{(.*?)\};", txt, flags=re.S).group(1).replace("\n", " ").split(",")
@@ -247,6 +256,8 @@ def run_case(case, ctx):
                 if bad_id:
                     w = {"mechanism": "C09/alias-keeps-star-and-dash"} if all(re.search(r"[*-]", a) for a in bad_id) else {}
                     viol.append(violation("illegal_identifier", f"naunet_enzo.h macros {['A_' + a for a in bad_id]} are not identifiers", **w))
+                if [a for a, _ in defs] != [a for _, a in before]:
+                    viol.append(violation("enzo_tables_disagree", f"naunet_enzo.h A_ macros {[a for a, _ in defs][:6]} differ from the index macros {[a for _, a in before][:6]}"))
                 if table != ["A_" + a for a, _ in defs]:
                     viol.append(violation("enzo_tables_disagree", f"A_Table order {table[:6]} differs from macro order {[a for a, _ in defs][:6]}"))
                 for (a, v), (nm, A, el) in zip(defs, n2):
